@@ -99,8 +99,16 @@ def scenario(ctx, clients, max_preempt, raising):
                 if fails == 2:
                     raise JobExit('job %s fails' % (self.ident,))
 
+            def prepare(self):
+                # called by the controller when the job is started, in the starter's thread; it may fail, too
+                if raising and ctx.choose(4, 'prepare-raises') == 1:
+                    prepare_failed.add(self.ident)
+                    raise RuntimeError('job %s fails in prepare' % (self.ident,))
+
             def request_stop(self):
                 pass
+
+        prepare_failed = set()
 
         def client(prog, cname):
             def body():
@@ -132,7 +140,9 @@ def scenario(ctx, clients, max_preempt, raising):
         left = s.run()
         # ---- verdicts for this schedule ----
         for t in s.threads:
-            if t.exc is not None and not (isinstance(t.exc, (RuntimeError, JobExit)) and 'fails' in str(t.exc)):
+            if t.exc is not None and t.name.startswith('client'):
+                problems.append('%s: a failing job makes the client\'s call raise: %s: %s' % (t.name, type(t.exc).__name__, t.exc))
+            elif t.exc is not None and not (isinstance(t.exc, (RuntimeError, JobExit)) and 'fails' in str(t.exc)):
                 problems.append('%s: exception escapes: %s: %s' % (t.name, type(t.exc).__name__, t.exc))
         if s.out_of_steps:
             problems.append('schedule does not finish within the step bound')
@@ -154,7 +164,7 @@ def scenario(ctx, clients, max_preempt, raising):
                 m0.clear()
         for ident, j in jobs.items():
             n = starts.count(ident)
-            want = 0 if ident in cleared else 1
+            want = 0 if (ident in cleared or ident in prepare_failed) else 1
             if n != want and not left and not s.out_of_steps:
                 problems.append('job %s was started %d times%s' % (ident, n, ' although it had been cleared from the queue' if ident in cleared else ''))
         # order: every started queued job was the head of the queue as linearised by the controller's own deque
@@ -178,6 +188,7 @@ def scenario(ctx, clients, max_preempt, raising):
                 else:
                     model.popleft()
                 order.append(x.job.ident)
+        order = [i for i in order if i not in prepare_failed]        # taken in turn, but could not get ready: never executed
         qstarts = [i for i in starts if not jobs[i].background]
         if qstarts != order[:len(qstarts)] and not problems:
             problems.append('start order %s differs from queue order %s' % (qstarts, order))
